@@ -236,7 +236,9 @@ func (in *instr) rewriteSelect(n *ast.SelectStmt) ast.Stmt {
 		cc := cl.(*ast.CommClause)
 		if cc.Comm == nil {
 			hasDefault = "true"
-			clauses = append(clauses, &ast.CaseClause{List: []ast.Expr{&ast.UnaryExpr{Op: token.SUB, X: &ast.BasicLit{Kind: token.INT, Value: "1"}}}, Body: cc.Body})
+			// the select's default clause is the switch's default clause (a select whose
+			// clauses all terminate stays a terminating statement)
+			clauses = append(clauses, &ast.CaseClause{Body: cc.Body})
 			continue
 		}
 		name := "_vrtC" + strconv.Itoa(idx)
@@ -263,6 +265,10 @@ func (in *instr) rewriteSelect(n *ast.SelectStmt) ast.Stmt {
 		}
 		clauses = append(clauses, &ast.CaseClause{List: []ast.Expr{&ast.BasicLit{Kind: token.INT, Value: strconv.Itoa(idx)}}, Body: body})
 		idx++
+	}
+	if hasDefault == "false" {
+		// Select only returns without a fired clause while an aborted thread unwinds
+		clauses = append(clauses, &ast.CaseClause{Body: []ast.Stmt{&ast.ExprStmt{X: &ast.CallExpr{Fun: ast.NewIdent("panic"), Args: []ast.Expr{in.vrtCall("SelectInterrupted")}}}}})
 	}
 	args := []ast.Expr{site, ast.NewIdent(hasDefault)}
 	for _, nm := range names {
